@@ -98,6 +98,55 @@ def _key(case):
     return json.dumps(case, sort_keys=True)
 
 
+# The order of the keys of a situation (and of an output section) is observable: ids are numbered in
+# document order, the handlers walk the slots in document order.  Cases are stored and replayed as
+# JSON with sorted keys, so every order-sensitive mapping is kept as a list of pairs {"$d": [[k, v]...]}.
+
+def enc(x):
+    if isinstance(x, dict):
+        if set(x) == {"$date"}:
+            return x
+        return {"$d": [[k, enc(v)] for k, v in x.items()]}
+    if isinstance(x, list):
+        return [enc(v) for v in x]
+    return x
+
+
+def dec(x):
+    if isinstance(x, dict):
+        if set(x) == {"$d"}:
+            return {k: dec(v) for k, v in x["$d"]}
+        return {k: dec(v) for k, v in x.items()}
+    if isinstance(x, list):
+        return [dec(v) for v in x]
+    return x
+
+
+def enc_case(case):
+    c = dict(case)
+    if c["kind"] == "api":
+        c["docs"] = [dict(e, doc=enc(e["doc"])) for e in c["docs"]]
+    else:
+        c["tests"] = [dict(t, input=enc(t["input"]), output=enc(t["output"])) for t in c["tests"]]
+    return c
+
+
+_DEC: dict = {}
+
+
+def D(case):
+    """the case with its ordered mappings as dicts"""
+    k = _key(case)
+    if k not in _DEC:
+        c = dict(case)
+        if c["kind"] == "api":
+            c["docs"] = [dict(e, doc=dec(e["doc"])) for e in c["docs"]]
+        else:
+            c["tests"] = [dict(t, input=dec(t["input"]), output=dec(t["output"])) for t in c["tests"]]
+        _DEC[k] = c
+    return _DEC[k]
+
+
 # ---------------------------------------------------------------------------------------
 # systems
 # ---------------------------------------------------------------------------------------
@@ -503,7 +552,9 @@ def gen_api_case(rng):
             ops.append(["parameter", rng.randrange(len(sysj["params"]))])
             continue
         if r < 0.27:
-            names = list(vt)
+            # listings of variables with an end date or several dated formulas are asked for more often
+            names = [n for n, x in vt.items() for _ in range(
+                1 if x["rule"] is None else 1 + 4 * bool(sysj["vars"][x["rule"]]["end"]) + len(sysj["vars"][x["rule"]]["formulas"]))]
             ops.append(["variable", rng.choice(names)])
             continue
         if docs and r < 0.42:
@@ -530,7 +581,7 @@ def gen_api_case(rng):
         ops.append(["calculate", len(docs) - 1])
         if rng.random() < 0.45:
             ops.append(["trace", len(docs) - 1])
-    return {"kind": "api", "sys": sysj, "docs": docs, "ops": ops[:nops + 1]}
+    return enc_case({"kind": "api", "sys": sysj, "docs": docs, "ops": ops[:nops + 1]})
 
 
 # ---------------------------------------------------------------------------------------
@@ -677,7 +728,7 @@ def gen_yaml_case(rng):
             t = gen_yaml_test(rng, sysj, vt, tbs, len(tests))
             if t is not None:
                 tests.append(t)
-    return {"kind": "yaml", "sys": sysj, "tests": tests}
+    return enc_case({"kind": "yaml", "sys": sysj, "tests": tests})
 
 
 def gen_yaml_test(rng, sysj, vt, tbs, k):
@@ -991,7 +1042,7 @@ def run_yaml(case):
 def run_impl(case):
     with warnings.catch_warnings():
         warnings.simplefilter("ignore")
-        obs = run_api(case) if case["kind"] == "api" else run_yaml(case)
+        obs = run_api(D(case)) if case["kind"] == "api" else run_yaml(D(case))
     _AUX[_key(case)] = obs
     return obs
 
@@ -1116,6 +1167,7 @@ def coq_case(case):
     obs = _AUX.get(_key(case))
     if obs is None or isinstance(obs, Err) or obs.get("inexact"):
         return "(KYaml [] [] [])"
+    case = D(case)
     vt = var_table(case["sys"])
     if case["kind"] == "api":
         ops = coq_ops(case, obs)
@@ -1147,6 +1199,7 @@ def obs_for_coq(case, obs):
         return obs
     if obs.get("inexact"):
         return []
+    case = D(case)
     if case["kind"] == "api":
         return [op_obs_for_coq(obs["ops"][n]) for _, n in coq_ops(case, obs)]
     return list(obs["verdicts"])
@@ -1349,6 +1402,7 @@ def oracle(case, obs):
         return f"driver: {obs.msg}"
     if obs.get("inexact"):
         return None
+    case = D(case)
     return oracle_api(case, obs) if case["kind"] == "api" else oracle_yaml(case, obs)
 
 
@@ -1370,12 +1424,34 @@ def classify(case, obs):
         return "driver-error"
     if obs.get("inexact"):
         return "skipped-inexact"
+    case = D(case)
     if case["kind"] == "api":
         n = sum(1 for op in case["ops"] if op[0] in ("calculate", "trace"))
         defects = sorted({d["defect"] for d in case["docs"] if d["defect"]})
         return f"api:{n}-requests" + ("+" + "+".join(defects) if defects else "")
     npass = sum(1 for v in obs["verdicts"] if v is True)
     return f"yaml:{len(case['tests'])}-tests:{npass}-pass"
+
+
+def shrink(case, still_fails):
+    """a YAML file is cut down to one failing test; a request sequence loses every operation it can"""
+    if case["kind"] == "yaml":
+        for t in case["tests"]:
+            c = dict(case, tests=[t])
+            if still_fails(c):
+                return c
+        return None
+    ops = list(case["ops"])
+    changed = False
+    i = 0
+    while i < len(ops) and len(ops) > 1:
+        trial = ops[:i] + ops[i + 1:]
+        if still_fails(dict(case, ops=trial)):
+            ops = trial
+            changed = True
+        else:
+            i += 1
+    return dict(case, ops=ops) if changed else None
 
 
 def totals(cases, observations):
